@@ -339,7 +339,6 @@ def slack_rename(label):
 def ineq_bqm_case(ctx, r, lines, checks):
     vt = 'SPIN' if r.random() < .12 else 'BINARY'
     kind = r.choice(['cy64', 'cy64', 'obj'])
-    _, b = make_bqm(kind, vt)
     n = r.randint(1, 5)
     pool = r.sample(LABELS, n)
     terms = []
@@ -359,6 +358,55 @@ def ineq_bqm_case(ctx, r, lines, checks):
     cross = r.random() < .12
     lam = r.choice([F(1), F(2), F(1, 2), F(3)])
     label = r.choice(['c', 'k0', 'x_y'])
+    ineq_bqm_eval(ctx, r, lines, checks, vt, kind, terms, c, lb, ub, cross, lam, label)
+
+
+def plan_class(coeffs, c, lb, ub):
+    """the branch of the planning step, computed from the definition (independent of the code and of the model)"""
+    tu = sum(a for a in coeffs if a > 0); tl = sum(a for a in coeffs if a < 0)
+    ubc = min(tu, ub - c); lbc = max(tl, lb - c)
+    if tu <= ubc and tl >= lbc:
+        return 'skip'
+    if ubc < lbc:
+        return 'infeasible'
+    if ubc == lbc:
+        return 'equality:given' if lb == ub else 'equality:by-tightening'
+    return 'slack'
+
+
+def ineq_bqm_sweep(ctx, r, lines, checks):
+    """systematic part: ALL coefficient vectors over a small alphabet x constants x ALL bound pairs around the reach of the
+    terms (two-sided, and both one-sided forms with the int64 extremes) — in particular every constraint whose tightened
+    range `min(tu, ub-c) - max(tl, lb-c)` is 0 although lb != ub (equality short-cut reached by tightening only)."""
+    alphabet = ctx.scale([-2, -1, 1, 2], [-3, -2, -1, 1, 2, 3])
+    maxlen = ctx.scale(2, 3)
+    consts = ctx.scale([0, 1], [-1, 0, 2])
+    names = ['a', 'b', 'c']
+    todo = []
+    for n in range(1, maxlen + 1):
+        for vec in itertools.product(alphabet, repeat=n):
+            if list(vec[1:]) != sorted(vec[1:]) and n == 3:
+                continue   # order of the tail is immaterial for the plan: keep one representative per multiset (thorough, n = 3)
+            tu = sum(a for a in vec if a > 0); tl = sum(a for a in vec if a < 0)
+            for c in consts:
+                lo, hi = tl - 1 + c, tu + 1 + c
+                bounds = [(lb, ub) for lb in range(lo, hi + 1) for ub in range(lb, hi + 1)]
+                bounds += [(-(2 ** 63), ub) for ub in range(lo, hi + 1)] + [(lb, 2 ** 63 - 1) for lb in range(lo, hi + 1)]
+                for lb, ub in bounds:
+                    todo.append((vec, c, lb, ub))
+    # quick tier: every tightened-range-0 constraint, and a sample of the others
+    for vec, c, lb, ub in todo:
+        pc = plan_class(vec, c, lb, ub)
+        if ctx.tier == 'quick' and pc != 'equality:by-tightening' and r.random() > .12:
+            continue
+        terms = list(zip(names, vec))
+        if len(vec) >= 2 and r.random() < .15:
+            terms = [(names[0], a) for a in vec[:2]] + terms[2:]    # the same vector on a repeated label
+        ineq_bqm_eval(ctx, r, lines, checks, 'BINARY', 'obj' if r.random() < .2 else 'cy64', terms, c, lb, ub, False, F(r.choice([1, 2])), 'c', sweep=True)
+
+
+def ineq_bqm_eval(ctx, r, lines, checks, vt, kind, terms, c, lb, ub, cross, lam, label, sweep=False):
+    _, b = make_bqm(kind, vt)
     line = (f"ineqbqm {rat(lam)} {label.encode().hex()} {c} {lb} {ub} {int(cross)} " + ','.join(f'{lab(v)}={a}' for v, a in terms))
     src = (HDR + make_src(kind, vt) + f'\nterms = {terms!r}\nlam, c, lb, ub = {float(lam)!r}, {c}, {lb}, {ub}\n'
            'def coef(b): return ({v: F(b.get_linear(v)) for v in b.variables}, {(u, v): F(q) for u, v, q in b.iter_quadratic()}, F(b.offset))\n'
@@ -388,12 +436,15 @@ def ineq_bqm_case(ctx, r, lines, checks):
             warnings.simplefilter('ignore')
             sl = b.add_linear_inequality_constraint(iter(terms) if r.random() < .2 else list(terms), conv(lam), label, constant=c, lb=lb, ub=ub, cross_zero=cross)
         raised = False
-    except ValueError:
+        exc = None
+    except Exception as e:  # noqa  ANY exception is a refusal ("refuses only truly infeasible constraints")
         raised = True
-    except Exception as e:  # noqa  any other exception is a refusal too ("refuses only truly infeasible constraints")
-        raised = True
-        ctx.tick('ineqbqm:raises:' + type(e).__name__)
+        exc = type(e).__name__
+        if exc != 'ValueError':
+            ctx.tick('ineqbqm:raises:' + exc)
     ctx.tick(f'ineqbqm:{vt}' + (':raises' if raised else '') + (':cross' if cross else ''))
+    if vt == 'BINARY' and not cross:
+        ctx.tick('ineqbqm:plan:' + plan_class([a for _, a in terms], c, lb, ub) + (':sweep' if sweep else ''))
     ctx.case(('ineqbqm', line, kind, vt), nontrivial=not raised,
              sample=dict(vartype=vt, terms=repr(terms), constant=c, lb=lb, ub=ub, lam=str(lam)))
     cls = 'SPIN model' if vt == 'SPIN' else ('cross_zero=True' if cross else 'BINARY model')
@@ -406,7 +457,8 @@ def ineq_bqm_case(ctx, r, lines, checks):
     if raised:
         if anyfeas and not cross:
             bad = True
-            ctx.fail('property', site, cls if vt == 'SPIN' else cls + ', refuses a feasible constraint', f'{vt} terms {terms!r} c={c} lb={lb} ub={ub}: ValueError although some assignment is feasible', repro=src)
+            ctx.fail('property', site, cls if vt == 'SPIN' else cls + ', refuses a feasible constraint', f'{vt} terms {terms!r} c={c} lb={lb} ub={ub}: {exc} although some assignment is feasible '
+                     f'(branch by definition: {plan_class([a for _, a in terms], c, lb, ub)})', repro=src)
         out = 'raise'
     else:
         c1 = coef(b)
@@ -463,6 +515,38 @@ def ineq_dqm_case(ctx, r, lines, checks):
     cross = r.random() < .1
     lam = r.choice([F(1), F(2), F(1, 2)])
     label = r.choice(['c', 'k0'])
+    ineq_dqm_eval(ctx, r, lines, checks, method, ncases, names, d, build, terms, cst, lb, ub, cross, lam, label)
+
+
+def ineq_dqm_sweep(ctx, r, lines, checks):
+    """systematic part for the DQM method (log2 / linear): two-case variables whose case 1 carries the coefficient, so that the
+    linear form is that of the BQM sweep; ALL small coefficient vectors x constants x ALL bound pairs around the reach of the
+    terms — in particular every constraint whose tightened range is 0 although lb != ub"""
+    alphabet = ctx.scale([-2, -1, 1, 2], [-3, -2, -1, 1, 2, 3])
+    consts = ctx.scale([0], [-1, 0, 2])
+    for n in range(1, ctx.scale(2, 3) + 1):
+        for vec in itertools.product(alphabet, repeat=n):
+            if n == 3 and list(vec[1:]) != sorted(vec[1:]):
+                continue
+            tu = sum(a for a in vec if a > 0); tl = sum(a for a in vec if a < 0)
+            for c in consts:
+                lo, hi = tl - 1 + c, tu + 1 + c
+                bounds = [(lb, ub) for lb in range(lo, hi + 1) for ub in range(lb, hi + 1)]
+                bounds += [(-(2 ** 63), ub) for ub in range(lo, hi + 1)] + [(lb, 2 ** 63 - 1) for lb in range(lo, hi + 1)]
+                for lb, ub in bounds:
+                    pc = plan_class(vec, c, lb, ub)
+                    if ctx.tier == 'quick' and (pc != 'equality:by-tightening' or r.random() > .5) and r.random() > .04:
+                        continue
+                    names = ['a', 'b', 'c'][:n]
+                    ncases = [2] * n
+                    d = DQM(); build = 'd = DQM()\n'
+                    for v in names:
+                        d.add_variable(2, v); build += f'd.add_variable(2, {v!r})\n'
+                    terms = [(i, 1, a) for i, a in enumerate(vec)]
+                    ineq_dqm_eval(ctx, r, lines, checks, r.choice(['log2', 'linear']), ncases, names, d, build, terms, c, lb, ub, False, F(r.choice([1, 2])), 'c', sweep=True)
+
+
+def ineq_dqm_eval(ctx, r, lines, checks, method, ncases, names, d, build, terms, cst, lb, ub, cross, lam, label, sweep=False):
     st0 = dqm_state(d)
     lin0, quad0, off0, adj0 = state_text(st0)
     line = (f"ineqdqms {method} {','.join(map(str, ncases))} {rat(lam)} {label.encode().hex()} {cst} {lb} {ub} {int(cross)} "
@@ -474,7 +558,7 @@ def ineq_dqm_case(ctx, r, lines, checks):
            'e0 = {t: F(float(d.energy(dict(zip(vs, t))))) for t in orig}\n'
            'try:\n'
            f'    sl = d.add_linear_inequality_constraint(terms, lam, {label!r}, constant=c, lb=lb, ub=ub, slack_method={method!r}, cross_zero={cross})\n'
-           'except ValueError:\n'
+           'except Exception:\n'
            '    assert not any(lb <= val(dict(zip(vs, t))) <= ub for t in orig), "refused a feasible constraint"\n'
            '    raise SystemExit(0)\n'
            'ss = [v for v in d.variables if v not in vs]\n'
@@ -493,9 +577,15 @@ def ineq_dqm_case(ctx, r, lines, checks):
             warnings.simplefilter('ignore')
             sl = d.add_linear_inequality_constraint(list(call), float(lam), label, constant=cst, lb=lb, ub=ub, slack_method=method, cross_zero=cross)
         raised = False
-    except ValueError:
+        exc = None
+    except Exception as e:  # noqa  ANY exception is a refusal
         raised = True
+        exc = type(e).__name__
+        if exc != 'ValueError':
+            ctx.tick('ineqdqm:raises:' + exc)
     ctx.tick(f'ineqdqm:{method}' + (':raises' if raised else '') + (':cross' if cross else '') + (':preexisting-adj' if any(st0[4]) else ''))
+    if not cross:
+        ctx.tick('ineqdqm:plan:' + plan_class([a for _, _, a in terms], cst, lb, ub) + (':sweep' if sweep else ''))
     ctx.case(('ineqdqm', line), nontrivial=not raised, sample=dict(method=method, terms=repr(call), constant=cst, lb=lb, ub=ub))
     site = 'DQM.add_linear_inequality_constraint'
     cls = f'slack_method={method}' + (', cross_zero=True' if cross else '')
@@ -503,7 +593,7 @@ def ineq_dqm_case(ctx, r, lines, checks):
     if raised:
         if anyfeas and not cross:
             bad = True
-            ctx.fail('property', site, cls + ', refuses a feasible constraint', f'terms {call!r} c={cst} lb={lb} ub={ub}: ValueError although some assignment is feasible', repro=src)
+            ctx.fail('property', site, cls + ', refuses a feasible constraint', f'terms {call!r} c={cst} lb={lb} ub={ub}: {exc} although some assignment is feasible', repro=src)
         out = 'raise'
     else:
         svars = [v for v in d.variables if v not in names]
@@ -587,6 +677,18 @@ def cqm_case(ctx, r, lines, checks):
         else:
             lbv = 0 if r.random() < .93 else r.choice([1, -1])
             kinds.append(('I', lbv, r.choice([2, 3, 3, 4, 5, 6, 7, 1] if r.random() < .9 else [1])))
+    # a binary/spin variable labelled like a `binary_encoding` bit of one of the integers: must be refused (D64)
+    conflict = False
+    ints = [(v, k) for v, k in zip(names, kinds) if k[0] == 'I' and k[1] == 0 and k[2] >= 2]
+    if ints and r.random() < .1:
+        v, k = r.choice(ints)
+        kk = k[2].bit_length() - 1
+        bits = [(v, 2 ** e) for e in range(kk)] + [(v, k[2] - (2 ** kk - 1), 'msb')]
+        names = names + [r.choice(bits)]; kinds = kinds + [r.choice([('B',), ('S',)])]
+        if r.random() < .5:
+            names = names[-1:] + names[:-1]; kinds = kinds[-1:] + kinds[:-1]
+        nv += 1
+        conflict = True
     intcoef = lambda: r.choice([-4, -3, -2, -1, 1, 1, 2, 3, 4, 5])  # noqa: E731
     # objective
     olin = [(v, dy(r, 12, 2)) for v in names if r.random() < .8]
@@ -597,6 +699,22 @@ def cqm_case(ctx, r, lines, checks):
                 continue
             if r.random() < .4:
                 oquad.append(((u, v), dy(r, 8, 2)))
+    # spin variables that occur ONLY in interactions (linear bias 0), with spin, binary and integer partners: the
+    # SPIN -> BINARY substitution of `_qm_to_bqm` must not depend on a linear bias being present (seed C16-7)
+    spins = [v for v, k in zip(names, kinds) if k[0] == 'S']
+    spin_quad_only = False
+    if spins and len(names) >= 2 and r.random() < .3:
+        olin = [(v, a) for v, a in olin if v not in spins]
+        have = {frozenset(p) for p, _ in oquad}
+        for sv in spins:
+            partner = r.choice([u for u in names if u != sv])
+            if frozenset((sv, partner)) not in have:
+                a = F(0)
+                while a == 0:
+                    a = dy(r, 8, 2)
+                pair = (sv, partner) if names.index(sv) < names.index(partner) else (partner, sv)
+                oquad.append((pair, a)); have.add(frozenset(pair))
+        spin_quad_only = any(sv in p for p, a in oquad for sv in spins if a != 0)
     ooff = dy(r, 8, 2) if r.random() < .5 else F(0)
     cons = []
     for _ in range(r.choice([0, 1, 1, 2, 2, 3])):
@@ -664,7 +782,7 @@ def cqm_case(ctx, r, lines, checks):
            '    bqm, inv = dimod.cqm_to_bqm(cqm, lam)\n'
            'except ValueError:\n'
            '    ally = [dict(zip(names, t)) for t in itertools.product(*[dom(k) for k in kinds])]\n'
-           '    assert (any(k[0] == "I" and (k[1] != 0 or k[2] < 2) for k in kinds) or any(cq for _, cq, _, _, _ in cons)\n'
+           f'    assert ({conflict} or any(k[0] == "I" and (k[1] != 0 or k[2] < 2) for k in kinds) or any(cq for _, cq, _, _, _ in cons)\n'
            '            or any(not any(one(y, c) for y in ally) for c in cons)), "refused a CQM it should convert"\n'
            '    raise SystemExit(0)\n'
            'if lam is None: lam = 0\n'
@@ -712,23 +830,28 @@ def cqm_case(ctx, r, lines, checks):
         err = None
     except Exception as e:  # noqa
         err = e
-    ctx.tick('cqm' + (':spin' if has_spin else '') + (f':{type(err).__name__}' if err is not None else ''))
+    ctx.tick('cqm' + (':spin' if has_spin else '') + (':spin-only-in-interactions' if spin_quad_only else '') + (':bit-label-conflict' if conflict else '') + (f':{type(err).__name__}' if err is not None else ''))
     ctx.case(('cqm', line), nontrivial=err is None, sample=dict(vars=list(zip(map(repr, names), kinds)), ncons=len(cons), lam=str(lam)))
     site = 'cqm_to_bqm'
     if err is not None:
-        legit = isinstance(err, ValueError) and (bad_lb or small_ub or quad_cons or not each_feasible)
+        legit = isinstance(err, ValueError) and (bad_lb or small_ub or quad_cons or not each_feasible or conflict)
         if not legit:
             cls = 'SPIN variable' if has_spin else 'valid CQM'
             ctx.fail('property', site, cls, f'{type(err).__name__}: {err} on a CQM with linear integer-coefficient constraints over {kinds!r}', repro=src)
             return
         msg = str(err)
-        ecls = ('lowerBound' if 'lower bound' in msg else 'encoding' if 'upper_bound must be' in msg else
+        ecls = ('conflict' if 'conflicting variables' in msg else 'lowerBound' if 'lower bound' in msg else 'encoding' if 'upper_bound must be' in msg else
                 'quadraticConstraint' if 'quadratic constraints' in msg else 'infeasible' if 'infeasible' in msg else msg)
         lines.append(line)
         checks.append(('cqm_to_bqm vs Pen.cqmToBqm', 'refusal', 'err ' + ecls, src, False))
         return
     if bad_lb or quad_cons:
         ctx.fail('property', site, 'nonzero lower bound' if bad_lb else 'quadratic constraint', 'accepted', repro=src + 'assert False\n')
+        return
+    if conflict:
+        ctx.fail('property', site, 'variable labelled like an encoding bit',
+                 f'variables {list(zip(names, kinds))!r}: accepted although a binary/spin variable has the label of a binary_encoding bit of an integer variable; '
+                 f'the BQM has {bqm.num_variables} variables and the inverter cannot reach every CQM assignment', repro=src + 'assert False, "accepted"\n')
         return
     lam_used = lam
     enc = [u for u in bqm.variables if not (isinstance(u, str) and u.startswith('slack_'))]
@@ -883,8 +1006,10 @@ def run(ctx):
         eq_dqm_case(ctx, r, lines, checks)
     for _ in range(ctx.scale(220, 5000)):
         ineq_bqm_case(ctx, r, lines, checks)
+    ineq_bqm_sweep(ctx, r, lines, checks)
     for _ in range(ctx.scale(160, 4000)):
         ineq_dqm_case(ctx, r, lines, checks)
+    ineq_dqm_sweep(ctx, r, lines, checks)
     benc_cases(ctx, r, lines, checks)
     for _ in range(ctx.scale(140, 3000)):
         cqm_case(ctx, r, lines, checks)
